@@ -289,7 +289,11 @@ def rule_mode(chk):
                 if isinstance(x, ast.Call) and isinstance(x.func, ast.Attribute) and x.func.attr == "write" and isinstance(x.func.value, ast.Name) \
                         and x.func.value.id == fparam and len(x.args) == 1 and isinstance(x.args[0], ast.Constant) and x.args[0].value == b"":
                     probe = (n, x)
-    chk.need(probe is not None, "FileDestination.__new__: mode probe file.write(b'') not found")
+    if probe is None:
+        how = [unparse(v)[:60] for v in assigned_values(f, "unicodeFile") if v is not None]
+        chk.bad("C10.mode", "FileDestination.__new__:probe-selects-text-mode-on-TypeError", chk.where(f),
+                "text/binary mode is no longer detected by probing file.write(b'') (now: %s): a text file-like object of another class is treated as binary (or vice versa) and every write fails" % (how or "no probe"))
+        return
     tr, pcall = probe
     flag = None
     handler_ok = False
